@@ -9,8 +9,8 @@ from harness import core
 class C16(core.Check):
     pid = 'C16'
     driver = 'drv_c16'
-    quick_cases = 900
-    thorough_cases = 12000
+    quick_cases = 4500
+    thorough_cases = 40000
     rule = ('random text / image-path columns (0-8 rows; strings from a pool incl. "", unicode, "nan"/"None" look-alikes; '
             '~28% missing cells as None / float nan / pandas.NA) in object, str and string dtype, seven index labelings '
             '(range, offset, duplicated, shuffled, strings, negative, constant), batch_size in {None, 1..n+1} (3% 0), '
